@@ -214,6 +214,8 @@ def tasks(tier, seed):
     from ..pyvc.driver import verify
     from ..contracts import facade
     ts += [(verify, (c, m, q, v)) for c, m, q, v in facade.ALL if any(x in c.name for x in ("shift", "scale", "normalize", "__imul__"))]
+    from ..contracts import gens
+    ts += [(verify, (c, m, q, v)) for c, m, q, v in gens.ALL]
     shapes = spec.knot_shapes(2, 1) + [(3, (2,)), (1, (1, 2))] if tier == "quick" else spec.knot_shapes(3, 2)
     for sh in shapes:
         ts.append((task_affine, (sh,)))
@@ -231,12 +233,14 @@ def replay(o):
 
 
 INFO = dict(
-    assumptions=A.S_COMMON, trusted_base=A.TRUSTED, min_obligations=30, level="other",
-    explanation="C18: generator closed forms enumerated for every (degree, npts, number class) up to a bound and for adversarial randint draws (bounded); shift / "
+    assumptions=A.S_COMMON + [A.A10], trusted_base=A.TRUSTED, min_obligations=30, level="other",
+    explanation="C18: engine V proves the generator closed forms for all degrees / npts / positive weight vectors and every randint draw, and shift / scale / "
+                "normalize for all vectors (the constructor is used by contract there, A10). In addition: generator closed forms enumerated for every (degree, npts, number class) up to a bound and for adversarial randint draws (bounded); shift / "
                 "scale / normalize with symbolic knots, shift and scale: every knot mapped affinely, degree / npts / multiplicities kept, normalize onto exactly "
                 "[0,1] for exact numbers; invariance of basis functions and curves under s*U+a (the real evaluation code on both symbolic vectors); the float "
                 "clause 'umax == 1.0 exactly' on doubles d with d*(1/d) != 1 (concrete IEEE, bounded).",
-    functions=["knotspace.GeneratorKnotVector.bezier/integer/uniform/random/weight", "knotspace.KnotVector.shift/scale/normalize", "heavy.eval_spline_nodes", "curves.Curve.eval"],
+    functions=["knotspace.GeneratorKnotVector.bezier/integer/weight/uniform/random (V: closed forms for ALL degrees, npts, positive weight vectors and every randint draw)",
+               "knotspace.KnotVector.shift/scale/normalize/__imul__ (V: affine image, degree/npts kept, exactly [0,1], atomic)", "knotspace.KnotVector.shift/scale/normalize", "heavy.eval_spline_nodes", "curves.Curve.eval"],
 )
 
 
